@@ -83,7 +83,7 @@ pub fn run(ctx: &Ctx) {
          independent reader's full conformance check against the model (offsets relative to P) and opens in the library to the model; final stream position = P + end of tile \
          data. Non-trivial: P > 0; distinct by digest.",
     );
-    run_proptest(ctx, "start-positions", PtCfg::new(ctx.lanes, ctx.tier.pick(500, 6000)), strategy, check);
+    run_proptest(ctx, "start-positions", PtCfg::new(ctx.lanes, ctx.tier.pick(500, 40_000)), strategy, check);
     let big: Vec<Case> = (0..ctx.tier.pick(6, 24))
         .map(|i| Case { l: logical::large(15_000 + 700 * i, 1800 + i as u64, 1 + (i % 4) as u8), asyncw: i % 2 == 1, start: [0u64, 1, 127, 5000, 70_001, 16_384][i % 6], prefill: (i % 3) as u8, extra: 50_000 })
         .collect();
